@@ -1,6 +1,6 @@
 """Helpers shared by rule modules: guard tables in normal form, table comparison."""
 from bpsa.normal import canon, accept_atoms, bool_atom, atom_vars, variant_atom
-from bpsa.terms import short, walk, TERM_IDX
+from bpsa.terms import short, walk, TERM_IDX, T
 import copy
 
 
@@ -301,3 +301,133 @@ def compare_table(ctx, rule, fnkey, body, expected, allowed_extra=()):
             rep.violation(rule, key, 'extra guard %s under %s narrows the accepted domain of %s' % (fmt_atom(a), list(c), body.path),
                           ctx.where(body, r['guard'].bb))
     return rows
+
+
+# ---- bounds of the form 2^bits (+k) -------------------------------------------------------------------------------------
+
+U64_MAX = 18446744073709551615
+
+
+def pow2_form(eng, t, is_bits, depth=0):
+    """k such that term t denotes 2^bits + k for every bit length 1..=64 (with 2^64 - 1 = u64::MAX), or None.
+    `is_bits(term)` tells whether a term is the bit length.  Recognises 1 << bits, checked_shl, pow(2, bits), +/- constants,
+    saturating / checked / wrapping variants, and `opt.map_or(u64::MAX, |x| x - 1)` over a checked shift (which is 2^bits - 1
+    at 64 bits as well)."""
+    if depth > 12:
+        return None
+    while t.tag in ('mut', 'via'):
+        t = t[1] if t.tag == 'mut' else t[2]
+    if t.tag == 'cast':
+        return pow2_form(eng, t[2], is_bits, depth + 1)
+
+    def bits_arg(x):
+        while x.tag in ('cast', 'mut'):
+            x = x[2] if x.tag == 'cast' else x[1]
+        if x.tag == 'call' and x[1].split('::')[-1] in ('try_from', 'try_into', 'from', 'into') and len(x[2]) == 1:
+            return bits_arg(x[2][0])
+        return is_bits(x)
+
+    def const(x):
+        while x.tag in ('cast', 'mut'):
+            x = x[2] if x.tag == 'cast' else x[1]
+        return x[1] if x.tag == 'const' and isinstance(x[1], int) and not isinstance(x[1], bool) else None
+    if t.tag == 'binop' and t[1] == 'Shl' and const(t[2]) == 1 and bits_arg(t[3]):
+        return 0
+    if t.tag == 'binop' and t[1] in ('Sub', 'Add') and const(t[3]) is not None:
+        k = pow2_form(eng, t[2], is_bits, depth + 1)
+        return None if k is None else (k - const(t[3]) if t[1] == 'Sub' else k + const(t[3]))
+    if t.tag == 'tuple' and len(t.args) == 2 and t.args[1].tag == 'opaque':
+        return pow2_form(eng, t.args[0], is_bits, depth + 1)
+    if t.tag == 'field' and t[1] == '0':
+        return pow2_form(eng, t[2], is_bits, depth + 1)
+    if t.tag == 'call':
+        nm = t[1].split('::')[-1]
+        a = t[2]
+        if nm in ('checked_shl', 'wrapping_shl', 'overflowing_shl', 'unbounded_shl') and len(a) == 2 and const(a[0]) == 1 and bits_arg(a[1]):
+            return 0
+        if nm == 'pow' and len(a) == 2 and const(a[0]) == 2 and bits_arg(a[1]):
+            return 0
+        if nm in ('saturating_sub', 'checked_sub', 'wrapping_sub') and len(a) == 2 and const(a[1]) is not None:
+            k = pow2_form(eng, a[0], is_bits, depth + 1)
+            return None if k is None else k - const(a[1])
+        if nm in ('saturating_add', 'checked_add', 'wrapping_add') and len(a) == 2 and const(a[1]) is not None:
+            k = pow2_form(eng, a[0], is_bits, depth + 1)
+            return None if k is None else k + const(a[1])
+        if nm == 'map_or' and len(a) == 3:
+            # None (the shift overflowed: bits = 64) -> default; Some(p) -> f(p)
+            inner = pow2_form(eng, a[0], is_bits, depth + 1)
+            cl = a[2]
+            while cl.tag == 'mut':
+                cl = cl[1]
+            if inner == 0 and cl.tag == 'closure':
+                P = T('opaque', 'pow2')
+                k = pow2_form(eng, eng.apply(cl, (P,)), lambda x: False, depth + 1) if False else _shift_of(eng, eng.apply(cl, (P,)), P)
+                d = const(a[1])
+                if k is not None and d is not None and d == U64_MAX + 1 + k:
+                    return k
+        if nm in ('unwrap_or',) and len(a) == 2:
+            k = pow2_form(eng, a[0], is_bits, depth + 1)
+            d = const(a[1])
+            if k is not None and d is not None and d == U64_MAX + 1 + k:
+                return k
+        if nm in ('ok', 'and_then') and a:
+            if nm == 'and_then' and len(a) == 2:
+                cl = a[1]
+                while cl.tag == 'mut':
+                    cl = cl[1]
+                if cl.tag == 'closure' and bits_arg(a[0]):
+                    # bits.and_then(|b| 1.checked_shl(b)): apply to the bit length itself
+                    return pow2_form(eng, eng.apply(cl, (a[0],)), is_bits, depth + 1)
+            return pow2_form(eng, a[0], is_bits, depth + 1)
+    if t.tag == 'phi':
+        ks = {pow2_form(eng, x, is_bits, depth + 1) for x in t.args}
+        return ks.pop() if len(ks) == 1 else None
+    return None
+
+
+def _shift_of(eng, t, P):
+    """k such that t == P + k, for t built from the placeholder P by adding / subtracting constants"""
+    while t.tag in ('mut', 'cast'):
+        t = t[1] if t.tag == 'mut' else t[2]
+    if t is P:
+        return 0
+    if t.tag == 'binop' and t[1] in ('Sub', 'Add') and t[3].tag == 'const' and isinstance(t[3][1], int):
+        k = _shift_of(eng, t[2], P)
+        return None if k is None else (k - t[3][1] if t[1] == 'Sub' else k + t[3][1])
+    if t.tag == 'tuple' and len(t.args) == 2 and t.args[1].tag == 'opaque':
+        return _shift_of(eng, t.args[0], P)
+    if t.tag == 'field' and t[1] == '0':
+        return _shift_of(eng, t[2], P)
+    if t.tag == 'call' and t[1].split('::')[-1] in ('saturating_sub', 'checked_sub', 'wrapping_sub') and len(t[2]) == 2 and t[2][1].tag == 'const':
+        k = _shift_of(eng, t[2][0], P)
+        return None if k is None else k - t[2][1][1]
+    return None
+
+
+def bound_verdict(eng, cond, accept_when, is_value, is_bits):
+    """For a comparison `cond` between a value and a bound of the form 2^bits + k: does accepting exactly when cond == accept_when
+    mean value <= 2^bits - 1?  Returns (True/False, text) or (None, why) when the comparison is not of that form."""
+    c = cond
+    neg = False
+    while c.tag == 'unop' and c[1] == 'Not':
+        c, neg = c[2], not neg
+    if c.tag != 'binop' or c[1] not in ('Lt', 'Le', 'Gt', 'Ge'):
+        return None, 'not an ordering comparison'
+    op, a, b = c[1], c[2], c[3]
+    if is_value(b) and not is_value(a):
+        a, b = b, a
+        op = {'Lt': 'Gt', 'Gt': 'Lt', 'Le': 'Ge', 'Ge': 'Le'}[op]
+    if not is_value(a):
+        return None, 'the value is not one side of the comparison'
+    k = pow2_form(eng, b, is_bits)
+    if k is None:
+        return None, 'the bound is not recognised as 2^bits + k'
+    truth = accept_when != neg          # accept when (value op bound) == truth
+    if not truth:
+        op = {'Lt': 'Ge', 'Ge': 'Lt', 'Gt': 'Le', 'Le': 'Gt'}[op]
+    # accept iff value op (2^bits + k)
+    if op in ('Gt', 'Ge'):
+        return False, 'values are accepted when they are ABOVE the bound 2^bits%+d' % k
+    largest = (k - 1) if op == 'Lt' else k          # largest accepted value is 2^bits + largest
+    return largest == -1, 'the largest accepted value is 2^bits%+d (documented: 2^bits - 1)' % largest
+
